@@ -305,3 +305,37 @@ Proof.
 Qed.
 
 End Hash.
+
+(** [embedded_hash] is decidable for the directory at hand *)
+Fixpoint infixb (a b : bytes) : bool :=
+  starts_with a b || match b with [] => false | _ :: r => infixb a r end.
+
+Lemma infixb_unfold a b :
+  infixb a b = starts_with a b || match b with [] => false | _ :: r => infixb a r end.
+Proof. destruct b; reflexivity. Qed.
+
+Lemma infixb_spec a b : infixb a b = true <-> infix a b.
+Proof.
+  split.
+  - induction b as [|x b IH]; simpl; intros H.
+    + rewrite orb_false_r in H. apply starts_with_spec in H as [r H]. exists [], r. exact H.
+    + apply orb_true_iff in H as [H|H].
+      * apply starts_with_spec in H as [r H]. exists [], r. exact H.
+      * destruct (IH H) as [p [q E]]. exists (x :: p), q. rewrite E. reflexivity.
+  - intros [p [q E]]. subst b. induction p as [|x p IH].
+    + rewrite infixb_unfold. change ([] ++ a ++ q) with (a ++ q). rewrite starts_with_app. reflexivity.
+    + change (infixb a ((x :: p) ++ a ++ q))
+        with (starts_with a (x :: (p ++ a ++ q)) || infixb a (p ++ a ++ q)).
+      rewrite IH. apply orb_true_r.
+Qed.
+
+Definition embedded_hashb (HS : bytes -> bytes) (d : list file) : bool :=
+  existsb (fun s => existsb (fun t => infixb (HS s) t) (streams d)) (streams d).
+
+Lemma embedded_hashb_spec HS d : embedded_hashb HS d = true <-> embedded_hash HS d.
+Proof.
+  unfold embedded_hashb, embedded_hash. rewrite existsb_exists. split.
+  - intros [s [S H]]. apply existsb_exists in H as [t [T H]]. exists s, t. rewrite <- infixb_spec. auto.
+  - intros [s [t [S [T H]]]]. exists s. split; [exact S|]. apply existsb_exists. exists t.
+    rewrite infixb_spec. auto.
+Qed.
